@@ -73,7 +73,7 @@ expect('types: str in Integer slot', 'TraceMutate', {'obs': o}, {'obs': bad}, 'F
 # ---- C17: TraceXmlAttack
 a = {'kind': 'ext_general_file', 'pos': 'text_unicode', 'prot': 'xml', 'transport': 'wsgi', 'framing': 'plain'}
 o = {'called': True, 'fault': False, 'client': False, 'escape': False, 'canary': False, 'expanded': False, 'file_opened': False,
-     'net_contact': False, 'seconds10': 0, 'mb': 1}
+     'net_contact': False, 'seconds10': 0, 'mb': 1, 'nodes': 5, 'reqnodes': 5}
 cfga = ['INIT Init1', 'NEXT Next1', 'CONSTRAINT Report', 'CONSTANT Deviations = {}', 'CONSTANT MaxInst = 3', 'CHECK_DEADLOCK FALSE']
 expect('attack: file opened', 'TraceXmlAttack', {'what': 'attack', 'a': a, 'obs': o}, {'what': 'attack', 'a': a, 'obs': dict(o, file_opened=True)}, 'FileOpened', cfga)
 
